@@ -156,6 +156,53 @@ func c22(r *core.Run) {
 		}
 	}
 	r.Floor("R3.enumeration", 2)
+
+	// R4 the VM registers each storage built-in under its own implementation (shared row rule of C34.R10, storage members only)
+	vmRegistrationRows(r, "R4.vmnatives", func(tag string) bool { return strings.Contains(tag, "accountstorage") })
+
+	// R5 first writes of several accounts keep address and slab index together: every call of writeAccountStorageSlabIndex in
+	// AccountStorage.commit takes both operands from one element — the same map iteration step or the same element of the
+	// sorted slice (two parallel slices of which only one is sorted pair an address with another account's slab index)
+	if fn := mustFn(r, "R5.pairs", "runtime", "AccountStorage", "commit"); fn != nil {
+		elem := func(v ssa.Value) ssa.Value {
+			for d := 0; d < 8; d++ {
+				switch x := v.(type) {
+				case *ssa.Extract:
+					return x.Tuple // map range step (Next) or call result
+				case *ssa.UnOp:
+					v = x.X
+				case *ssa.Field:
+					v = x.X
+				case *ssa.FieldAddr:
+					v = x.X
+				case *ssa.IndexAddr:
+					return x
+				case *ssa.Convert:
+					v = x.X
+				case *ssa.ChangeType:
+					v = x.X
+				default:
+					return v
+				}
+			}
+			return v
+		}
+		n := 0
+		for _, c := range core.CallsTo(fn, true, func(o *types.Func) bool { return o != nil && o.Name() == "writeAccountStorageSlabIndex" }) {
+			args := c.Common().Args
+			if len(args) < 3 {
+				continue
+			}
+			n++
+			a, b := elem(args[1]), elem(args[2])
+			r.Check(a == b, "R5.pairs", core.SSAKey(fn)+": writeAccountStorageSlabIndex #"+itoa(n)+" operands come from one element", posOf(c), "address and slab index are two components of the same element",
+				"the address and the slab index written for it come from different collections/elements ("+core.OriginLeaves(args[1])+" vs "+core.OriginLeaves(args[2])+"): after sorting one of them, an account's `stored` register can point at another account's slab")
+		}
+		if n == 0 {
+			r.Undecided("R5.pairs", core.SSAKey(fn), "no register write found")
+		}
+	}
+	r.Floor("R5.pairs", 2)
 }
 
 func retText(ret *ssa.Return) string {
